@@ -225,6 +225,31 @@ func checkRegistrationRules(c *report.Ctx) {
 		nupd := 0
 		ok := true
 		var pos token.Pos = fpos(f)
+		// the presence test is the map's own Find function, or a comma-ok lookup in that map under the key stored
+		storedKey := map[string]string{}
+		an.AllInstrs(f, func(in ssa.Instruction) {
+			if mu, isMU := in.(*ssa.MapUpdate); isMU {
+				for _, fld := range []string{"byName", "byID"} {
+					if an.IsFieldLoad(mu.Map, "L/core."+mp, fld) {
+						storedKey[fld] = keyExpr(mu.Key)
+					}
+				}
+			}
+		})
+		absent := func(ft an.Fact, find, fld string) bool {
+			if ft.Val {
+				return false
+			}
+			if an.IsResultOf(ft.Cond, "L/core."+mp+"."+find, 1) {
+				return true
+			}
+			if ex, isEx := ft.Cond.(*ssa.Extract); isEx && ex.Index == 1 {
+				if lk, isLk := ex.Tuple.(*ssa.Lookup); isLk && lk.CommaOk && an.IsFieldLoad(lk.X, "L/core."+mp, fld) {
+					return storedKey[fld] != "" && keyExpr(lk.Index) == storedKey[fld]
+				}
+			}
+			return false
+		}
 		an.AllInstrs(f, func(in ssa.Instruction) {
 			mu, isMU := in.(*ssa.MapUpdate)
 			if !isMU {
@@ -232,8 +257,8 @@ func checkRegistrationRules(c *report.Ctx) {
 			}
 			nupd++
 			b := mu.Block()
-			nameFree := facts.Holds(b, func(ft an.Fact) bool { return !ft.Val && an.IsResultOf(ft.Cond, "L/core."+mp+".FindByName", 1) })
-			idFree := facts.Holds(b, func(ft an.Fact) bool { return !ft.Val && an.IsResultOf(ft.Cond, "L/core."+mp+".FindByID", 1) })
+			nameFree := facts.Holds(b, func(ft an.Fact) bool { return absent(ft, "FindByName", "byName") })
+			idFree := facts.Holds(b, func(ft an.Fact) bool { return absent(ft, "FindByID", "byID") })
 			if !nameFree || !idFree {
 				ok = false
 				pos = an.InstrPos(in)
@@ -276,12 +301,13 @@ func checkRegistrationRules(c *report.Ctx) {
 		for _, e := range an.Exits(f) {
 			if len(e.Vals) == 1 && an.GlobalOf(e.Vals[0]) == "L/core.ErrTooManyExtensions" {
 				found = facts.Holds(e.Ret.Block(), over)
+				// the launch error is recorded (by the helper or in place) on this refusal path, before the return
 				launch := false
-				for _, in := range e.Ret.Block().Instrs {
-					if an.IsCallTo(in, "L/rapid.agentLaunchError") {
+				an.AllInstrs(f, func(in ssa.Instruction) {
+					if an.IsCallTo(in, "L/rapid.agentLaunchError", "L/core.ExternalAgent.LaunchError") && facts.Holds(in.Block(), over) && an.InstrDominates(in, e.Ret) {
 						launch = true
 					}
-				}
+				})
 				c.Check("R-GUARD", "L/rapid.doInitExtensions/too-many-extensions", "the launch loop stops with ErrTooManyExtensions exactly when more than MaxAgentsAllowed agents exist, after recording the launch error", found && launch, an.InstrPos(e.Ret), 1, "guarded by CountAgents() > 10: %v; agentLaunchError called: %v", found, launch)
 			}
 		}
@@ -832,4 +858,16 @@ func tableConstStrings(v ssa.Value) []string {
 	}
 	sort.Strings(out)
 	return out
+}
+
+// keyExpr renders a map key for comparison: an access path, or a call with its arguments.
+func keyExpr(v ssa.Value) string {
+	if call, ok := v.(*ssa.Call); ok {
+		var args []string
+		for _, a := range call.Call.Args {
+			args = append(args, keyExpr(a))
+		}
+		return an.Callee(call) + "(" + strings.Join(args, ",") + ")"
+	}
+	return an.Path(v)
 }
